@@ -112,6 +112,9 @@ def handle (line : String) : String :=
     let c := (genC Gen.specData).all.filter fun x => lookupConst x.1 Gen.cConsts != some (x.2 : Int)
     if g.isEmpty && c.isEmpty then "ok"
     else "BAD generated files differ from generator(spec): go[" ++ nvStr g ++ "] c[" ++ nvStr c ++ "]"
+  | ["keymodelcheck"] =>
+    if keyModelsFollowLayout then "ok key models follow the layouts"
+    else "BAD the byte-level key models (tuples_key / lpm_key / match_set value) no longer follow the regenerated layouts: a member moved on both sides; update DaeVerif/C19/Model.lean §4"
   | ["listencheck"] =>
     let bad := [(6, false), (6, true), (17, false), (17, true)].filter fun x => cListenKey x.1 x.2 != goListenKey (listenerOfPacket x.1 x.2)
     if bad.isEmpty then "ok listener keys"
